@@ -263,3 +263,19 @@ PROPS["C11"] = dict(
              thorough=dict(checks=12800, shards=16, timeout=3000, shrink="2s")),
     ],
 )
+
+PROPS["C09"] = dict(
+    pkg="c09", level="exploration",
+    technique="property-based testing (rapid) over generated schedules and workloads: real generated raftkvs servers and clients under the deterministic scheduler; acknowledged client histories judged by the porcupine linearizability checker against a per-key register model",
+    level_text="Same scheduled runs as C08 with 2-3 concurrent real AClient archetypes, 1-3 keys, drawn Put/Get streams, drawn client time-outs (retries), "
+               "failure-detector answers, leader changes and minority crashes. Invocation = the commit of the clientLoop attempt that took the request, "
+               "return = the commit that published the response, logical time = global attempt index; returned values are read from the response records. "
+               "Unacknowledged Puts are treated as possibly effective.",
+    level_note="Trusts porcupine v1.3.0 and the register model; histories are sampled. The shape 'one Put appended twice to the log after a client retry' is "
+               "a listed finding candidate: a non-linearizable history is set aside only if some server's log holds two Put entries with equal (client, idx).",
+    rule="drawn configuration + workload + schedule (<=4000 attempts); non-trivial = two clients have overlapping operations on one key and a client retry or "
+         "a leader change happened while some operation was open; distinct by rendered history.",
+    runs=[
+        dict(test="TestC09Linearizable", quick=dict(checks=1600, shards=16, timeout=600), thorough=dict(checks=160000, shards=16, timeout=3300)),
+    ],
+)
